@@ -1,5 +1,6 @@
 import DracoProofs.KdTreeSize
 import DracoProofs.KdTreeValid
+import DracoProofs.KdEncTuples
 import Generated.FastDivTab
 /-
   C01 for the kd-tree point cloud coder — staging file of the kd-tree slice, to be merged into
@@ -146,5 +147,117 @@ theorem kdtree_decoded_geometry_valid (opts : DecOpts) (s s' : DSt) (g : Geometr
 example : (Kd.decodeKdGeometry {} { rest := [3, 0, 0, 0, 0], version := 515 }).1 =
     some { isMesh := false, numPoints := 3, faces := [], atts := [] } := by
   decide
+
+/-! ### C01 for `POINT_CLOUD_KD_TREE_ENCODING`, composed -/
+
+open KdEnc in
+/-- **C01 for `POINT_CLOUD_KD_TREE_ENCODING`** (and C06 trailing bytes, C20 self-delimitation).
+    For every point cloud in the domain `KdEnc.GeomOK`, ALL options (speed / compression level 0..6,
+    quantization bits, explicit quantization), every `std::partition` order allowed by the standard
+    and every rounding of the rANS probability (`Choices`): if the encoder model
+    (`KdEnc.encodeGeometryKd`: header, metadata, `PointCloudKdTreeEncoder`, `KdTreeAttributesEncoder`,
+    `DynamicIntegerPointsKdTreeEncoder`; tied to the C++ byte for byte by the driver op `kdattrenc`)
+    produces a stream, the complete decoder model `decodeGeometry` (tied to the C++ decoders token
+    for token) applied to that stream followed by arbitrary bytes `extra` succeeds, returns the
+    metadata, leaves exactly `extra` unread, and its geometry equals `expectedKd g opts` up to the
+    order of the points: same kind, number of points, attribute descriptors and unique ids, identity
+    point maps, and the same MULTISET of per-point value tuples.  `expectedKd g opts` is the input
+    with every point map resolved, integer attributes bit-identical (`kd_expected_identity`) and float
+    attributes replaced by `dequantize (quantize x)` — the same float-oracle expressions the encoder
+    and the decoder evaluate, so no floating point reasoning is involved.
+
+    Hypotheses (`KdEnc.GeomOK` / `KdEnc.AttOK`): a point cloud with 0 < numPoints < 2^31 (EMPTY clouds
+    crash the kd-tree encoder: known finding `empty-geometry`), fewer than 2^32 attributes, every
+    attribute structurally valid (C03) with byte values, attribute type < 5, ≤ 255 components,
+    unique id < 2^32, explicitly configured quantization parameters are float32 bit patterns, and
+    the coarse size bound that keeps the 32-bit block size prefixes from overflowing.
+    NOT hypotheses: attribute data types (unsupported ones make the encoder fail), values (all
+    int8..uint32 values incl. ranges ≥ 2^31, all floats the quantizer accepts), speeds (above 10
+    the encoder fails), quantization bits (invalid ones make the encoder fail). -/
+theorem pointcloud_kd_roundtrip (ch : Choices) (hpart : Kd.PartSpec ch.part) (g : Geometry)
+    (md : Option GeometryMetadata) (opts : SeqEnc.EncOpts) (bs : Bytes)
+    (hok : KdEnc.GeomOK g opts) (hmd : ∀ m, md = some m → m.WF')
+    (henc : encodeGeometryKd ch g md opts = some bs) (extra : Bytes) :
+    ∃ g' st, decodeGeometry {} { rest := bs ++ extra } = (some ⟨g', md⟩, st) ∧ st.rest = extra ∧
+      SameUpToPointOrder g' (expectedKd g opts) :=
+  kd_roundtrip ch hpart g md opts bs hok hmd henc extra
+
+open KdEnc in
+/-- the same with the encoder states exposed: the decoder's geometry is assembled
+    (`geometryOfPoints`: literally the decoder's final expression) from a permutation `pts'` of the
+    encoder's point vector, and the point vector in its original order gives `expectedKd g opts` -/
+theorem pointcloud_kd_roundtrip_full (ch : Choices) (hpart : Kd.PartSpec ch.part) (g : Geometry)
+    (md : Option GeometryMetadata) (opts : SeqEnc.EncOpts) (bs : Bytes) (encs : List AttEnc)
+    (hok : KdEnc.GeomOK g opts) (hmd : ∀ m, md = some m → m.WF')
+    (henc : encodeGeometryKdFull ch g md opts = some (bs, encs)) (extra : Bytes) :
+    ∃ pts' st, decodeGeometry {} { rest := bs ++ extra } =
+        (some ⟨geometryOfPoints g.numPoints encs pts', md⟩, st) ∧ st.rest = extra ∧
+      pts'.Perm (pointVector g.numPoints encs) ∧
+      geometryOfPoints g.numPoints encs (pointVector g.numPoints encs) = expectedKd g opts :=
+  kd_roundtrip_full ch hpart g md opts bs encs hok hmd henc extra
+
+open KdEnc in
+/-- an integer attribute comes back bit for bit: its expected image is the value of every point,
+    in point order (only the order of the points is not preserved by the decoder) -/
+theorem kd_expected_identity (opts : SeqEnc.EncOpts) (n i : Nat) (a : Attribute)
+    (h : a.dataType ≠ Generated.DT_FLOAT32.toNat) :
+    expectedAttributeOf opts n i a = (SeqEnc.descOf a).toAttribute n (SeqEnc.pointRows a n).flatten := by
+  unfold expectedAttributeOf
+  simp only [h, if_false]
+
+example : KdEnc.expectedAttributeOf {} 2 0
+    { attType := 4, dataType := 3, numComponents := 1, normalized := false, uniqueId := 0,
+      numValues := 2, map := none, values := [255, 255, 5, 0] } =
+    { attType := 4, dataType := 3, numComponents := 1, normalized := false, uniqueId := 0,
+      numValues := 2, map := none, values := [255, 255, 5, 0] } :=
+  (kd_expected_identity {} 2 0 _ (by decide)).trans (by decide +kernel)
+
+/-! #### non-vacuity of the composed theorem -/
+
+/-- 3 points, a signed int16 attribute with two components and an explicit point map, and a uint8
+    attribute; speed 10 = compression level 0 -/
+def sampleKdPC : Geometry :=
+  { isMesh := false, numPoints := 3, faces := [],
+    atts := [
+      { attType := 0, dataType := 3, numComponents := 2, normalized := false, uniqueId := 5,
+        numValues := 2, map := some [1, 0, 1], values := [255, 255, 5, 0, 0, 128, 7, 0] },
+      { attType := 2, dataType := 2, numComponents := 1, normalized := true, uniqueId := 1,
+        numValues := 3, map := none, values := [9, 200, 9] } ] }
+
+def sampleKdOpts : SeqEnc.EncOpts := { speed := 10 }
+
+def sampleKdChoices : KdEnc.Choices := ⟨Kd.stdPartition, fun _ _ => 128⟩
+
+theorem sampleKdPC_ok : KdEnc.GeomOK sampleKdPC sampleKdOpts := by
+  refine ⟨rfl, by decide, by decide, by decide, ?_, by decide⟩
+  intro i a h
+  match i, h with
+  | 0, h =>
+    simp only [sampleKdPC, List.getElem?_cons_zero, Option.some.injEq] at h
+    subst h
+    exact ⟨by decide, fun b hb => by revert b; decide, by decide, by decide, by decide,
+      fun org r h => by cases h⟩
+  | 1, h =>
+    simp only [sampleKdPC, List.getElem?_cons_succ, List.getElem?_cons_zero, Option.some.injEq] at h
+    subst h
+    exact ⟨by decide, fun b hb => by revert b; decide, by decide, by decide, by decide,
+      fun org r h => by cases h⟩
+  | i + 2, h => simp [sampleKdPC] at h
+
+theorem sampleKdPC_encodes : ∃ bs, KdEnc.encodeGeometryKd sampleKdChoices sampleKdPC none sampleKdOpts = some bs := by
+  have : (KdEnc.encodeGeometryKd sampleKdChoices sampleKdPC none sampleKdOpts).isSome = true := by decide +kernel
+  exact Option.isSome_iff_exists.1 this
+
+example : ∃ bs g' st, KdEnc.encodeGeometryKd sampleKdChoices sampleKdPC none sampleKdOpts = some bs ∧
+    decodeGeometry {} { rest := bs ++ [1, 2, 3] } = (some ⟨g', none⟩, st) ∧ st.rest = [1, 2, 3] ∧
+    KdEnc.SameUpToPointOrder g' (KdEnc.expectedKd sampleKdPC sampleKdOpts) := by
+  obtain ⟨bs, hbs⟩ := sampleKdPC_encodes
+  obtain ⟨g', st, h1, h2, h3⟩ := pointcloud_kd_roundtrip sampleKdChoices Kd.partSpec_std sampleKdPC none
+    sampleKdOpts bs sampleKdPC_ok (fun m h => by cases h) hbs [1, 2, 3]
+  exact ⟨bs, g', st, hbs, h1, h2, h3⟩
+
+/-- … and what is expected back is the input with the point map resolved -/
+example : (KdEnc.expectedKd sampleKdPC sampleKdOpts).atts.map (·.values) =
+    [[0, 128, 7, 0, 255, 255, 5, 0, 0, 128, 7, 0], [9, 200, 9]] := by decide +kernel
 
 end Draco.C01Kd
